@@ -39,6 +39,8 @@ Clause(o) ==
                  [] OTHER -> "ReusedObjects")
          ELSE IF o.case.op \in {"sum", "resolve", "resolve_cwd"} /\ {<<o.vars[j][1], o.vars[j][2]>> : j \in 1..Len(o.vars)} # VarSet(ref.vars)
               THEN "LaterVarsOverride"
+         \* the placeholder probe where the reference does not define its variable: it fails, as with the single pipeline
+         ELSE IF o.ph[1] # o.ph[2] THEN "PlaceholderProbeAsSinglePipeline"
          ELSE IF o.applied # o.ref_applied THEN "AppliedAndStateAsSinglePipeline"
          ELSE ""
 Verdict(o) == LET c == Clause(o) IN [id |-> o.id, v |-> IF c = "" THEN "ok" ELSE "violation:" \o c]
